@@ -11,6 +11,7 @@ import (
 	"github.com/wmnsk/go-pfcp/ie"
 	"github.com/wmnsk/go-pfcp/message"
 
+	"verif/harness/internal/fakebess"
 	"verif/harness/internal/pfcpx"
 )
 
@@ -122,13 +123,18 @@ func (w *World) settle(p *pfcpx.Peer, got bool, extraQuiet time.Duration) {
 	time.Sleep(w.Quiet + extraQuiet)
 }
 
-func (w *World) collectMarkers() []map[string]interface{} {
+// collectMarkers decodes the end markers received since the last step. programmedAt is the time the last
+// farLookup add of this step was acknowledged (zero if none): "afterProg" records whether the marker
+// arrived after it.
+func (w *World) collectMarkers(programmedAt time.Time) []map[string]interface{} {
 	out := []map[string]interface{}{}
 
 	for {
 		select {
-		case b := <-w.markers:
-			out = append(out, markerJSON(b))
+		case mk := <-w.markers:
+			m := markerJSON(mk.b)
+			m["afterProg"] = programmedAt.IsZero() || !mk.at.Before(programmedAt)
+			out = append(out, m)
 		default:
 			return out
 		}
@@ -166,6 +172,8 @@ func markerJSON(b []byte) map[string]interface{} {
 // exchange sends one request and records everything observed for it.
 func (w *World) exchange(p *pfcpx.Peer, kind string, req map[string]interface{}, raw []byte, expectResp bool, extraQuiet time.Duration) []pfcpx.Dgram {
 	p.Drain()
+
+	cmds0 := w.Bess.Snapshot().Cmds
 	_ = p.SendRaw(raw)
 
 	got := false
@@ -190,7 +198,15 @@ func (w *World) exchange(p *pfcpx.Peer, kind string, req map[string]interface{},
 		ev["errs"] = t.Errs
 	}
 
-	ev["markers"] = w.collectMarkers()
+	var programmedAt time.Time
+
+	for _, c := range w.Bess.CmdsSince(cmds0) {
+		if c.Module == "farLookup" && c.Cmd == "add" && c.DoneAt.After(programmedAt) {
+			programmedAt = c.DoneAt
+		}
+	}
+
+	ev["markers"] = w.collectMarkers(programmedAt)
 	w.emit(ev)
 	w.Steps++
 
@@ -371,6 +387,20 @@ func (w *World) Mod(peer string, r *SessReq) []pfcpx.Dgram {
 				extra = 10 * time.Millisecond // markers travel through a channel and a socket after the response
 			}
 		}
+	}
+
+	if extra > 0 && w.HoldFar > 0 {
+		// hold the programming of the new FAR: a marker emitted before the datapath acknowledged it would arrive early
+		hold := w.HoldFar
+		w.Bess.FaultFn = func(seq int, module, cmd string) fakebess.Fault {
+			if module == "farLookup" && cmd == "add" {
+				return fakebess.Fault{Delay: hold}
+			}
+
+			return fakebess.Fault{}
+		}
+
+		defer func() { w.Bess.FaultFn = nil }()
 	}
 
 	return w.exchange(p, "mod", w.sessReqJSON(p, r, seq), marshal(m), true, extra)
